@@ -23,19 +23,16 @@ open AdaptaVerif.Model.Lifecycle AdaptaVerif.Spec.Lifecycle
 @[simp] theorem cons_freeConn (s : St) (c : Id) : (s.freeConn c).consolidate = s.consolidate := rfl
 @[simp] theorem cons_reroute (s : St) : (reroute s).consolidate = s.consolidate := rfl
 
-theorem cons_iteFault (s : St) (b : Bool) (f : Fault) :
-    (if b then s.addFault f else s).consolidate = s.consolidate := by split <;> rfl
-
 @[simp] theorem cons_procRemoveMove (s : St) (a : Action) : (procRemoveMove s a).consolidate = s.consolidate := by
   unfold procRemoveMove
   split
   · split
     · rfl
-    · exact cons_iteFault s _ _
+    · rfl
   · split
     · split
       · rfl
-      · exact cons_iteFault s _ _
+      · rfl
     · rfl
 
 @[simp] theorem cons_procAddMove (s : St) (a : Action) : (procAddMove s a).consolidate = s.consolidate := by
@@ -257,12 +254,6 @@ theorem nd_moveObstacleOp {s : St} (h : NoDanglingAction s) (o : Id) (j : Bool) 
         · intro x; first | (show St.hasShape s o = true; simpa using hh) | (show St.hasJunction s o = true; simpa using hh) | (rcases x with x | x | x <;> cases x)
 
 
-theorem nd_iteFault {s : St} (h : NoDanglingAction s) (b : Bool) (f : Fault) :
-    NoDanglingAction (if b then s.addFault f else s) := by
-  split
-  · exact nd_addFault h f
-  · exact h
-
 theorem nd_releasePin {s : St} (h : NoDanglingAction s) (p : Id) : NoDanglingAction (s.releasePin p) := by
   refine nd_transfer h (fun _ x => x) (fun _ x => x) (fun _ x => x) ?_ (fun _ x => x)
   intro o ho
@@ -307,19 +298,15 @@ theorem nd_step {s : St} (h : NoDanglingAction s) (op : Op) (hl : LegalDoc s op 
       simp [St.hasConn, St.addConn, List.any_append]
     have hsrc : ∀ an, src = some an → (s.addConn id false).hasObst an.obj = true := specOk_obst hl.1.2
     have hdst : ∀ an, dst = some an → (s.addConn id false).hasObst an.obj = true := specOk_obst hl.2
-    dsimp only
-    split
-    · exact nd_addFault hA _
-    · refine nd_maybeProcess (fun hc => ?_)
-      simp only [cons_modify, cons_maybeProcess, cons_addConn] at hc
-      rw [maybeProcess_on (by simpa using hc)]
-      exact nd_modify (nd_modify hA _ hcA hsrc) _ hcA hdst
+    refine nd_maybeProcess (fun hc => ?_)
+    simp only [cons_modify, cons_maybeProcess, cons_addConn] at hc
+    rw [maybeProcess_on (by simpa using hc)]
+    exact nd_modify (nd_modify hA _ hcA hsrc) _ hcA hdst
   | newPin pin shape cls =>
     simp only [Bool.and_eq_true] at hl
     dsimp only
     rw [if_neg (by simp [hl.1.2])]
-    have h' := nd_iteFault h (!s.consolidate && s.attachedCount shape != 0) (.reentry pin)
-    refine nd_maybeProcess (fun _ => nd_enqueue (nd_addPin h' _ _ _) _ _ ?_ ?_ (by decide))
+    refine nd_maybeProcess (fun _ => nd_enqueue (nd_addPin h _ _ _) _ _ ?_ ?_ (by decide))
     · intro x; exact absurd x (not_shapeAct_of (by decide) (by decide) (by decide))
     · intro x; exact absurd x (not_junctionAct_of (by decide) (by decide) (by decide))
   | deleteShape id => exact nd_deleteObstacleOp h _ _
@@ -424,7 +411,7 @@ theorem freeObsts_spec (l : List Obst) (s : St) :
 theorem legal_deleteRouter {s : St} (hl : Legal s .deleteRouter = true) :
     s.alive = true ∧ (∀ o ∈ s.obst, o.active = true) ∧ (∀ c ∈ s.conns, c.active = true) := by
   simp only [Legal, LegalDoc, Bool.and_eq_true, List.all_eq_true, Bool.and_true] at hl
-  exact ⟨hl.1, hl.2.1.1, hl.2.1.2⟩
+  exact ⟨hl.1, hl.2.1, hl.2.2⟩
 
 theorem allocated_deleteRouter {s : St} (h : Core [] s) (hl : Legal s .deleteRouter = true) :
     (step s .deleteRouter).alive = false ∧ (step s .deleteRouter).allocated = [] := by
@@ -433,26 +420,20 @@ theorem allocated_deleteRouter {s : St} (h : Core [] s) (hl : Legal s .deleteRou
   unfold step at hcore ⊢
   rw [if_neg (by simp [hal])] at hcore ⊢
   dsimp only at hcore ⊢
-  generalize hs1 : (if (!s.consolidate && !s.actions.isEmpty &&
-      s.obst.any (fun o => o.active && !(s.pinsOf o.id).isEmpty)) = true
-      then s.addFault (.reentry 0) else s) = s1 at hcore ⊢
-  have e1 : s1.obst = s.obst := by subst hs1; split <;> rfl
-  have e2 : s1.conns = s.conns := by subst hs1; split <;> rfl
-  have hc1 : Core [] s1 := by subst hs1; exact core_iteFault h _ _
-  have hf1 : s1.conns.filter (·.active) = s1.conns := by
-    rw [List.filter_eq_self, e2]; exact hC
+  have hf1 : s.conns.filter (·.active) = s.conns := by
+    rw [List.filter_eq_self]; exact hC
   rw [hf1] at hcore ⊢
-  obtain ⟨a1, a2, a3⟩ := freeConns_spec s1.conns s1
-  have hc2 : Core [] (s1.conns.foldl (fun s c => s.freeConn c.id) s1) :=
-    core_freeConns hc1 _ (List.Sublist.refl _)
-  generalize (s1.conns.foldl (fun s c => s.freeConn c.id) s1) = s2 at a1 a2 a3 hc2 hcore ⊢
+  obtain ⟨a1, a2, a3⟩ := freeConns_spec s.conns s
+  have hc2 : Core [] (s.conns.foldl (fun s c => s.freeConn c.id) s) :=
+    core_freeConns h _ (List.Sublist.refl _)
+  generalize (s.conns.foldl (fun s c => s.freeConn c.id) s) = s2 at a1 a2 a3 hc2 hcore ⊢
   have hconns2 : s2.conns = [] := by
     rw [List.eq_nil_iff_forall_not_mem]
     intro x hx
     obtain ⟨hx1, hx2⟩ := a3 x hx
     exact hx2 x hx1 rfl
   have hf2 : s2.obst.filter (·.active) = s2.obst := by
-    rw [List.filter_eq_self, a1, e1]; exact hO
+    rw [List.filter_eq_self, a1]; exact hO
   rw [hf2] at hcore ⊢
   obtain ⟨b1, b2, b3⟩ := freeObsts_spec s2.obst s2
   generalize (s2.obst.foldl (fun s o => s.freeObstacle o.id) s2) = s3 at b1 b2 b3 hcore ⊢
@@ -506,19 +487,16 @@ theorem legalFrom_append (L : St → Op → Bool) (s : St) (h : List Op) (op : O
 @[simp] theorem alive_freeConn (s : St) (c : Id) : (s.freeConn c).alive = s.alive := rfl
 @[simp] theorem alive_reroute (s : St) : (reroute s).alive = s.alive := rfl
 
-theorem alive_iteFault (s : St) (b : Bool) (f : Fault) :
-    (if b then s.addFault f else s).alive = s.alive := by split <;> rfl
-
 @[simp] theorem alive_procRemoveMove (s : St) (a : Action) : (procRemoveMove s a).alive = s.alive := by
   unfold procRemoveMove
   split
   · split
     · rfl
-    · exact alive_iteFault s _ _
+    · rfl
   · split
     · split
       · rfl
-      · exact alive_iteFault s _ _
+      · rfl
     · rfl
 
 @[simp] theorem alive_procAddMove (s : St) (a : Action) : (procAddMove s a).alive = s.alive := by
@@ -588,11 +566,11 @@ theorem alive_step (s : St) (op : Op) (hne : op ≠ .deleteRouter) : (step s op)
   · cases op with
     | newShape id => simp
     | newJunction id pin => simp
-    | newConn id src dst ctor3 => dsimp only; split <;> simp
+    | newConn id src dst ctor3 => simp
     | newPin pin shape cls =>
       dsimp only; split
       · rfl
-      · simp only [alive_maybeProcess, alive_enqueue, alive_addPin]; exact alive_iteFault s _ _
+      · simp only [alive_maybeProcess, alive_enqueue, alive_addPin]
     | deleteShape id => exact alive_deleteObstacleOp s _ _
     | deleteJunction id => exact alive_deleteObstacleOp s _ _
     | deleteConn id => dsimp only; split <;> simp
